@@ -262,6 +262,12 @@ func (p *uPacketPacker) appendInitialPacketPayload(buffer *packetBuffer, header 
 		}
 	}
 
+	// [UQUIC] Like appendLongHeaderPacket: packet number and payload must be at least 4 bytes long,
+	// so that the 16-byte header protection sample lies inside the packet (RFC 9001, Section 5.4.2).
+	if minLen := 4 - int(pnLen); len(uPayload) < minLen {
+		uPayload = append(uPayload, make([]byte, minLen-len(uPayload))...)
+	}
+
 	header.Length = pnLen + protocol.ByteCount(sealer.Overhead()) + protocol.ByteCount(len(uPayload))
 
 	startLen := len(buffer.Data)
